@@ -570,6 +570,11 @@ class EnforcedForest:
         """
         self._hash = None
 
+        # a node has exactly one parent: when `v` moves to a new
+        # parent the edge from the previous parent no longer exists
+        if v in self.parents and self.parents[v] != u:
+            self.edge_data.pop((self.parents[v], v), None)
+
         # topology has changed so clear cache
         if (u, v) not in self.edge_data:
             self._cache = {}
